@@ -109,3 +109,14 @@ impl<'a, M: Flat + ?Sized, B: AsyncReadBuffer + 'a> Deref for RecvGuard<'a, M, B
         unsafe { M::from_bytes_unchecked(self.buffer) }
     }
 }
+
+/// Hooks for external verification harnesses. Compiled only with the `verif` feature.
+#[cfg(feature = "verif")]
+impl<M: Flat + ?Sized, B: AsyncReadBuffer> Receiver<M, B> {
+    pub fn verif_buffer(&self) -> &B {
+        &self.buffer
+    }
+    pub fn verif_buffer_mut(&mut self) -> &mut B {
+        &mut self.buffer
+    }
+}
